@@ -36,3 +36,10 @@ package snacl
 //@   requires password != nil
 //@   modifies nothing
 //@   ensures err == nil ==> result0 != nil && fresh(result0) && result0.Key != nil && fresh(result0.Key)
+
+// ---- C04: every ciphertext is sealed under a nonce freshly read from the random source into the very array that
+// is handed to secretbox.Seal, with this key, and the blob is that nonce followed by the box
+//@ func (*CryptoKey).Encrypt
+//@   assert-at call ReadFull nonce-filled-from-the-random-source: arg0 == prng && arr(arg1) == addr(nonce) && off(arg1) == 0 && len(arg1) == 24
+//@   assert-at call Seal sealed-under-this-key-with-that-nonce: arg2 == addr(nonce) && arg3 == ck && arg1 == in && len(arg0) == 0
+//@   assert-at return#1 no-ciphertext-without-a-random-nonce: result1 != nil && result0 == nil
